@@ -411,3 +411,25 @@ CHECKS["C10"] = {
         {"name": "histories-race", "run": "^TestC10Histories$", "kind": "rapid", "race": True, "tiers": ["thorough"], "checks": {"thorough": 1600}, "shards": {"thorough": 8}, "shrinktime": "30s"},
     ],
 }
+
+CHECKS["C18"] = {
+    "pkg": "props/c18",
+    "level": "exploration",
+    "rule": "A scenario is a real server (server.New, standard or netpoll transport) on a unix-domain socket or a loopback TCP port with ExitWaitTimeout in {150 ms, 1.5 s}, 1..6 client connections each in a state {busy: request sent and its handler parked on a harness channel; idle keep-alive after a completed request; mid-request: partial headers sent; just connected}, "
+            "busy responses of 1 B..256 KiB, handler release point {before Shutdown is called, right after a shutdown hook fired, 60 ms after the hook fired, after the wait}, hooks {none, fast, 50 ms + fast, longer than the wait}; then a dial attempt, a second Shutdown and a Shutdown of an engine that never ran. "
+            "Non-trivial = at least one busy connection whose handler returns after shutdown began together with another connection; distinct by FNV-64 of the plan.",
+    "assumptions": [
+        "'already received' is counted only for requests whose handler was entered before Shutdown was called (kernel backlog and the keep-alive race are not counted)",
+        "liveness is checked as bounded response: Shutdown returns within ExitWaitTimeout + 2 s; hooks are started; handlers released after the wait expired are not asserted on",
+        "when Shutdown returns before its deadline, no request received before the call may still be inside its handler (server-side timestamps, no slack)",
+        "idle keep-alive connections are not required to be closed by Shutdown (the standard transport leaves them to the idle timeout)",
+    ],
+    "level_text": "Random scenarios on real sockets against history invariants: complete untruncated responses for in-flight requests (with Connection: close when the handler returned after shutdown began), hooks started, bounded return, early return only when nothing is in flight, no service for connections dialled afterwards, errors for a second Shutdown and for a never-started engine.",
+    "level_note": "The technique is weakest here: schedules include the kernel and are sampled by real-time perturbation; liveness is only checked as bounded response.",
+    "technique": "property-based scenario generation (rapid) on real sockets with history invariants",
+    "nontrivial_floor": 10,
+    "units": [
+        {"name": "standard-transport", "run": "^TestC18Standard$", "kind": "rapid", "checks": {"quick": 64, "thorough": 640}, "shards": {"quick": 16, "thorough": 16}, "shrinktime": "30s"},
+        {"name": "netpoll-transport", "run": "^TestC18Netpoll$", "kind": "rapid", "checks": {"quick": 32, "thorough": 480}, "shards": {"quick": 16, "thorough": 16}, "shrinktime": "30s"},
+    ],
+}
